@@ -15,10 +15,11 @@ P_OUT = ("8.8.8.8", 5002)
 P_SUB = ("27.0.0.1", 5003)          # a substring of a default entry
 P_SUB2 = ("0.1.1.1", 5004)          # a substring of the custom entry
 P_V6 = ("::1", 5005, 0, 0)
+P_LOOP2 = ("127.0.0.2", 5006)       # same network as a listed address, not listed
 P_UNIX = ""
-PEERS = [P_LOOP, P_CUSTOM, P_OUT, P_SUB, P_SUB2, P_V6, P_UNIX]
+PEERS = [P_LOOP, P_CUSTOM, P_OUT, P_SUB, P_SUB2, P_V6, P_LOOP2, P_UNIX]
 PEER_NAME = {P_LOOP: "loopback", P_CUSTOM: "custom-listed", P_OUT: "unlisted", P_SUB: "substring-of-default",
-             P_SUB2: "substring-of-custom", P_V6: "ipv6-loopback", P_UNIX: "unix"}
+             P_SUB2: "substring-of-custom", P_V6: "ipv6-loopback", P_LOOP2: "other-loopback-unlisted", P_UNIX: "unix"}
 ALLOW = ["127.0.0.1,::1", "10.1.1.1", "*"]
 MODES = ["drop", "refuse", "dangerous"]
 FWD_HEADERS = ["SCRIPT_NAME,PATH_INFO", "REMOTE_USER", "*"]
@@ -246,7 +247,7 @@ def judge(case):
         exp, refuse = L.ref_env(cfgd, peer, reqs[k], None)
         if exp is None:
             continue
-        if refuse and not refuse.startswith("path outside"):
+        if refuse:
             fails.append((None, "request %d was served although it must be refused (%s)" % (k + 1, refuse)))
             continue
         pr = L.ref_parse_request(reqs[k])
@@ -254,10 +255,11 @@ def judge(case):
         c = L.real_cfg(L.full_cfg(cfgd))
         dangerous_untrusted = (c.header_map == "dangerous" and not L.ref_trusted(c.forwarded_allow_ips, peer)
                                and b"SCRIPT_NAME" in names)
-        for var in ("wsgi.url_scheme", "SCRIPT_NAME", "PATH_INFO"):
-            if env.get(var) != exp.get(var):
-                key = "dangerous-untrusted-script-name" if (dangerous_untrusted and var != "wsgi.url_scheme") else None
-                fails.append((key, "request %d: %s = %r, reference %r" % (k + 1, var, env.get(var), exp.get(var))))
+        if env.get("wsgi.url_scheme") != exp.get("wsgi.url_scheme"):
+            fails.append((None, "request %d: wsgi.url_scheme = %r, reference %r" % (k + 1, env.get("wsgi.url_scheme"), exp.get("wsgi.url_scheme"))))
+        bad_path = L.ref_path_check(env, exp)
+        if bad_path:
+            fails.append(("dangerous-untrusted-script-name" if dangerous_untrusted else None, "request %d: %s" % (k + 1, bad_path)))
         got = {k2: v for k2, v in env.items() if k2.startswith("HTTP_")}
         want = {k2: v for k2, v in exp.items() if k2.startswith("HTTP_")}
         if got != want:
@@ -314,11 +316,11 @@ def run(ctx):
         ctx.sample({"worker": c["kind"], "cfg": c["cfg"], "peer": c["peer"], "data": c["data"].decode("latin-1"),
                     "environs": c["envs"], "error_statuses": c["errs"]})
     ctx.cov["exhaustive"] = False
-    ctx.cov["rule"] = ("exhaustive matrix: 7 peers (two listed, unlisted, two that are substrings of a listed address, IPv6 loopback, unix) x "
+    ctx.cov["rule"] = ("exhaustive matrix: 8 peers (two listed, unlisted, two that are substrings of a listed address, IPv6 loopback, an unlisted address in a listed one's network, unix) x "
                        "forwarded_allow_ips {default, custom, *} x header_map {drop, refuse, dangerous} x forwarder_headers {default, custom, *} x "
                        "%d header scenarios (case / hyphen / underscore variants of the scheme headers, SCRIPT_NAME, PATH_INFO, a custom forwarder "
                        "header, colliding pairs, conflicting scheme headers) with the worker class rotating, + scheme extras; PROXY matrix on all 3 "
-                       "workers: 7 peers x proxy_protocol x proxy_allow_ips {default, custom, *} x 9 line variants (valid, invalid, sloppy, at "
+                       "workers: 8 peers x proxy_protocol x proxy_allow_ips {default, custom, *} x 9 line variants (valid, invalid, sloppy, at "
                        "request 1 / 2 / both) x keep-alive depth 1-3, + keep-alive/Connection/body extras; then %d seeded random connections "
                        "(random settings, peers, header sets with spelling variants, PROXY lines, depth 1-3, 12%% with one byte mutated). "
                        "non-trivial = carries a header field, a PROXY line or more than one request; distinct by (worker, settings, peer, bytes)"
